@@ -678,3 +678,11 @@ def mixed_bus_classes(first='A'):
     warm = [['root', 'A', 'P', 'P0'], ['idle', 'A'], ['root', 'B', 'X', 'X0'], ['idle', 'B']] if first == 'A' else [['root', 'B', 'X', 'X0'], ['idle', 'B'], ['root', 'A', 'P', 'P0'], ['idle', 'A']]
     main = warm + [['root', 'A', 'P', 'P1'], ['sleep', 't1'], ['root', 'B', 'X', 'X1'], ['root', 'A', 'P', 'P2'], ['idle', 'A'], ['idle', 'B'], ['obs_all', 'end']]
     return dict(buses=['A', 'B'], order=['A', 'B'], plain_buses=['B'], reals={'d1': ['0', '3/10'], 'd2': ['0', '3/10'], 't1': ['0', '3/10']}, handlers=handlers, main=main, horizon=7)
+
+
+
+def wal_unserialisable():
+    """a bus with a write-ahead log processes an event whose payload has no JSON form, between ordinary events."""
+    handlers = [['A', 'P', 'hP', [['sleep', 'd1'], ['ret', 'p']]], ['A', 'U', 'hU', [['ret', 'u']]], ['A', 'L', 'hL', [['ret', 'l']]]]
+    main = [['root', 'A', 'P', 'P1'], ['root', 'A', 'U', 'U1'], ['root', 'A', 'L', 'L1'], ['await', 'U1'], ['idle', 'A'], ['obs_all', 'end']]
+    return dict(buses=['A'], wal=['A'], reals={'d1': ['0', '1/5']}, handlers=handlers, main=main, horizon=5)
